@@ -1,7 +1,105 @@
 import Driver.Proto
-/- driver commands of area `sched` (stub until the area is built) -/
+import MesonModel.Sched.Model
+import MesonModel.Sched.Select
+/- driver commands of area `sched` (C12) -/
 namespace Driver.Sched
+open MesonModel.Sched Driver
 
-def handle (cmd : String) (fs : List String) : String := "bad-op"
+def natOf (s : String) : Nat := (s.trimAscii.toString.toNat?).getD 0
+
+def intOf (s : String) : Int :=
+  let t := s.trimAscii.toString
+  if t.startsWith "-" then - Int.ofNat ((t.drop 1).toString.toNat?.getD 0) else Int.ofNat (t.toNat?.getD 0)
+
+def words (s : String) : List String := (s.splitOn " ").filter (fun w => !w.isEmpty)
+
+def parseEvent (w : String) : Option Event :=
+  if w.startsWith "s" then (w.drop 1).toString.toNat?.map Event.start
+  else if w.startsWith "r" then
+    match (w.drop 1).toString.splitOn ":" with
+    | [i, r] => do
+      let i ← i.toNat?
+      let r ← TestResult.ofName? r
+      pure (Event.result i r)
+    | _ => none
+  else none
+
+def showSt : St → String
+  | .notLaunched => "N" | .waiting => "W" | .running false => "R" | .running true => "C"
+  | .done r => "D:" ++ r.name | .skipped => "S" | .cancelled => "X" | .vanished => "V"
+
+def showMain : Main → String
+  | .top => "top" | .waitSerial => "waitSerial" | .final => "final" | .finished => "finished"
+
+def showTally (t : Tally) : String :=
+  ",".intercalate ([t.ok, t.expectedFail, t.fail, t.unexpectedPass, t.skip, t.ignored, t.timeout].map toString)
+
+def showErr : ReplayErr → String
+  | .notLaunchable => "notLaunchable" | .startNotEnabled => "startNotEnabled"
+  | .resultNotEnabled => "resultNotEnabled" | .notFinished => "notFinished"
+
+def showState (c : Config) (s : State) : String :=
+  let sts := " ".intercalate ((List.range c.n).map (fun j => showSt (s.st j)))
+  s!"main={showMain s.main} jobs={c.jobs} st=[{sts}] tally={showTally s.tally} exit={s.tally.exitStatus} maxfail_reached={boolStr s.maxfailReached}"
+
+def parseWait : String → WaitOutcome
+  | "timeout" => .timedOut | "cancel" => .cancelled | _ => .exited
+
+def parseOptInt (s : String) : Option Int := if s.trimAscii.isEmpty then none else some (intOf s)
+
+/-- tests field: `name:project:suite,suite;…` (all strings code-point encoded) -/
+def parseTests (f : String) : List TestDesc :=
+  if f.trimAscii.isEmpty then [] else
+  (f.splitOn ";").map (fun t =>
+    match t.splitOn ":" with
+    | [n, p, ss] => { name := decodeStr n, project := decodeStr p, suites := decodeStrList ss }
+    | _ => { name := [], project := [], suites := [] })
+
+def parseSlice (f : String) : Option (Nat × Nat) :=
+  match f.trimAscii.toString.splitOn "/" with
+  | [a, b] => some (natOf a, natOf b)
+  | _ => none
+
+def showIdx (l : List Nat) : String := " ".intercalate (l.map toString)
+
+def handle (cmd : String) (fs : List String) : String :=
+  match cmd, fs with
+  | "trace", [jobs, rep, maxfail, par, evs] =>
+    let c := mkConfig (natOf jobs) (natOf rep) (natOf maxfail) ((words par).map (· == "1"))
+    match (words evs).mapM parseEvent with
+    | none => "bad-events"
+    | some es =>
+      match replay c es with
+      | .ok s => "ok " ++ showState c s
+      | .error (k, e) => s!"illegal {k} {showErr e}"
+  | "config", [jobs, rep, maxfail, par] =>
+    let c := mkConfig (natOf jobs) (natOf rep) (natOf maxfail) ((words par).map (· == "1"))
+    s!"jobs={c.jobs} repeatGt1={boolStr c.repeatGt1} par={" ".intercalate (c.par.map boolStr)}"
+  | "classify", ["exit", w, rc, ee, sf] =>
+    (classifyRun (parseWait w) (intOf rc) (parseOptInt ee) (sf == "1")).name
+  | "classify", ["tap", res, rc, sf] =>
+    match TestResult.ofName? res with
+    | some r => (completeTap r (intOf rc) (sf == "1")).name
+    | none => "bad-result"
+  | "tally", [rs] =>
+    match (words rs).mapM TestResult.ofName? with
+    | none => "bad-result"
+    | some l =>
+      match l.foldlM Tally.add ({} : Tally) with
+      | none => "ERR:exit"
+      | some t =>
+        let rows := " ".intercalate (t.summaryRows.map (fun p => s!"{p.1}:{p.2}"))
+        s!"{showTally t};{t.exitStatus};{rows};{boolStr (t == tallyOf l)}"
+  | "suite", [sel, prjst] => boolStr (suiteMatches (decodeStr sel) (decodeStr prjst))
+  | "select", [mainPrj, incl, excl, names, slice, tests] =>
+    let ts := parseTests tests
+    let idx := (List.range ts.length).zip ts
+    let suit := fun (p : Nat × TestDesc) =>
+      testSuitable (decodeStr mainPrj) (decodeStrList incl) (decodeStrList excl) (decodeStrList names) p.2
+    match getTests suit (parseSlice slice) idx with
+    | .ok l => showIdx (l.map (·.1))
+    | .error .tooManySlices => "ERR:tooManySlices"
+  | "slice", [len, i, n] => showIdx (pySlice (List.range (natOf len)) (natOf i) (natOf n))
+  | _, _ => "bad-op"
 
 end Driver.Sched
